@@ -38,11 +38,11 @@ Local Notation gate := (gate K).
 
 Ltac wf_red H :=
   lazy beta iota zeta delta [Model.wf Model.gaussian Model.eqs Model.all_eq Model.eq_ang Model.eq_hyp Model.eq_P Model.eq_CX
-                             Model.zero_flag_ok Model.hf app fst snd
+                             Model.zero_flag_ok Model.fl_ang Model.fl_hyp Model.fl_rp Model.hf app fst snd
                              Model.co Model.si Model.az Model.ch Model.sh Model.hz Model.rv Model.rz] in H.
 Ltac wf_goal :=
   lazy beta iota zeta delta [Model.wf Model.gaussian Model.eqs Model.all_eq Model.eq_ang Model.eq_hyp Model.eq_P Model.eq_CX
-                             Model.zero_flag_ok Model.hf app fst snd Model.cg Model.C Model.CH
+                             Model.zero_flag_ok Model.fl_ang Model.fl_hyp Model.fl_rp Model.hf app fst snd Model.cg Model.C Model.CH
                              Model.bs_sym Model.bs_half Model.a_eighth Model.a_zero Model.a_quarter Model.a_mquarter
                              Model.a_minus_quarter Model.a_plus_quarter Model.hneg Model.aneg Model.rneg
                              Model.co Model.si Model.az Model.ch Model.sh Model.hz Model.rv Model.rz].
@@ -57,7 +57,7 @@ Ltac flag_tac :=
   let E := fresh "E" in
   intro E; first [ discriminate E | split; reflexivity | use_flag E | idtac ].
 Ltac kids := repeat first [apply Forall_cons | apply Forall_nil].
-Ltac kid_solve := wf_goal; repeat split; try assumption; try ring; try exact Hrt; try flag_tac.
+Ltac kid_solve := wf_goal; repeat match goal with |- _ /\ _ => split end; try exact I; try assumption; try ring; try exact Hrt; try flag_tac.
 
 (* children of a well-formed gate are well-formed *)
 Lemma decomp_wf : forall g l, wf g -> decomp g = Some l -> Forall (fun c => wf (cg K c)) l.
@@ -66,10 +66,11 @@ Proof.
   - (* X *) destruct x as [r z]. wf_red W. destruct W as (_ & _ & Z). kids; kid_solve.
   - (* Z *) destruct p as [r z]. wf_red W. destruct W as (_ & _ & Z). kids; kid_solve.
   - (* P *) destruct s as [r z], wr as [ch sh hz], wth as [ct st zt], wphi as [cp sp zp].
-    wf_red W. destruct W as (_ & (A & B & C & _) & (_ & Z1 & Z2)). kids; kid_solve.
-    all: match goal with |- ?G => idtac G end.
+    wf_red W. destruct W as (_ & (A & B & C & _) & (_ & Z1 & Z2 & Z3)). kids; kid_solve.
   - (* MZ *) destruct pin as [ci si zi], pex as [ce se ze].
-    wf_red W. destruct W as (_ & (A & B & _) & Z). kids; kid_solve.
+    wf_red W. destruct W as (_ & (A & B & _) & (Z1 & Z2)). kids; kid_solve.
+  - (* sMZ *) destruct pin as [ci si zi], pex as [ce se ze].
+    wf_red W. destruct W as (_ & (A & B & _) & (Z1 & Z2)). kids; kid_solve.
     all: match goal with |- ?G => idtac G end.
 Abort.
 End Drv.
